@@ -12,3 +12,56 @@ package keeper
 // C03: completion height = start height + the unbonding constant (wrap-around of uint64 included)
 //@ func (Keeper).GetUnbondingExpirationBlockNumber
 //@   ensures[C03.guebn.spec] result == wrapu(startHeight + g("x/operator/types.UnbondingExpiration"), 18446744073709551616)
+
+// ---------------------------------------------------------------------------------------------
+// C04: slashing
+
+// per item: slash = min(trunc(p * original amount), what is left); nothing else in the record changes
+//@ func SlashFromUndelegation
+//@   requires undelegation != nil && !isnil(undelegation.Amount) && !isnil(undelegation.ActualCompletedAmount) && !isnil(slashProportion)
+//@   requires val(undelegation.ActualCompletedAmount) >= 0 && val(undelegation.Amount) >= 0 && val(slashProportion) >= 0
+//@   modifies *undelegation
+//@   ensures[C04.sfu.nil]    (result == nil) <==> (old(val(undelegation.ActualCompletedAmount)) == 0)
+//@   ensures[C04.sfu.noop]   result == nil ==> *undelegation == old(*undelegation)
+//@   ensures[C04.sfu.amount] result != nil ==> !isnil(result.Amount) && val(result.Amount) ==
+//@        imin(chop_trunc(val(slashProportion) * old(val(undelegation.Amount))), old(val(undelegation.ActualCompletedAmount)))
+//@   ensures[C04.sfu.left]   result != nil ==> !isnil(undelegation.ActualCompletedAmount) &&
+//@        val(undelegation.ActualCompletedAmount) == old(val(undelegation.ActualCompletedAmount)) - val(result.Amount) &&
+//@        val(undelegation.ActualCompletedAmount) >= 0 && val(result.Amount) >= 0
+//@   ensures[C04.sfu.ids]    result != nil ==> result.StakerID == old(undelegation.StakerID) && result.AssetID == old(undelegation.AssetID)
+//@   ensures[C04.sfu.frame]  undelegation.Amount == old(undelegation.Amount) && undelegation.StakerID == old(undelegation.StakerID) &&
+//@        undelegation.AssetID == old(undelegation.AssetID) && undelegation.OperatorAddr == old(undelegation.OperatorAddr) &&
+//@        undelegation.TxHash == old(undelegation.TxHash) && undelegation.IsPending == old(undelegation.IsPending) &&
+//@        undelegation.BlockNumber == old(undelegation.BlockNumber) && undelegation.CompleteBlockNumber == old(undelegation.CompleteBlockNumber) &&
+//@        undelegation.LzTxNonce == old(undelegation.LzTxNonce)
+
+//@ func (*Keeper).CheckSlashParameter
+//@   requires parameter != nil
+//@   ensures[C04.csp.spec] (err == nil) <==> (!isnil(parameter.SlashProportion) && val(parameter.SlashProportion) >= 0 &&
+//@        parameter.SlashEventHeight <= ctx.height && ((parameter.IsDogFood && parameter.Power > 0) || (!parameter.IsDogFood && parameter.Power == 0)))
+
+//@ define slashInfoKey(op, avs, id) = cat(g("x/operator/types.KeyPrefixOperatorSlashInfo"), join(op, avs, id))
+//@ define slashInfoRaw(c, op, avs, id) = get(c, "operator", slashInfoKey(op, avs, id))
+
+//@ func (*Keeper).UpdateOperatorSlashInfo
+//@   modifies get(ctx, "operator", slashInfoKey(operatorAddr, avsAddr, slashID))
+//@   ensures[C09.uosi.atomic] err != nil ==> state(ctx) == old(state(ctx))
+//@   ensures[C04.uosi.dup]    old(slashInfoRaw(ctx, operatorAddr, avsAddr, slashID)) != nil ==> err != nil
+//@   ensures[C04.uosi.ok]     err == nil ==> slashInfoRaw(ctx, operatorAddr, avsAddr, slashID) != nil &&
+//@        unm["x/operator/types.OperatorSlashInfo"](slashInfoRaw(ctx, operatorAddr, avsAddr, slashID)) == norm["x/operator/types.OperatorSlashInfo"](slashInfo) &&
+//@        !isnil(slashInfo.SlashProportion) && 0 <= val(slashInfo.SlashProportion) && val(slashInfo.SlashProportion) <= P18 &&
+//@        slashInfo.EventHeight <= slashInfo.SubmittedHeight
+
+// SlashAssets is not yet verified against a functional contract: only its frame is used (it runs on the cache context).
+//@ func (*Keeper).SlashAssets
+//@   flag assumed
+//@   modifies state(ctx)
+
+// Slash: a reported failure leaves no trace, and a slash id is executed at most once.
+//@ func (*Keeper).Slash
+//@   requires parameter != nil
+//@   modifies state(ctx)
+//@   ensures[C09.slash.atomic] err != nil ==> state(ctx) == old(state(ctx))
+//@   ensures[C04.slash.once]   old(slashInfoRaw(ctx, accstr(parameter.Operator), parameter.AVSAddr, parameter.SlashID)) != nil ==>
+//@        err != nil && state(ctx) == old(state(ctx))
+//@   ensures[C04.slash.recorded] err == nil ==> slashInfoRaw(ctx, accstr(parameter.Operator), parameter.AVSAddr, parameter.SlashID) != nil
